@@ -105,20 +105,32 @@ func goEnv() []string {
 	return append(os.Environ(), "GOFLAGS=-mod=mod", "GOPROXY=off", "GOSUMDB=off", "GOTOOLCHAIN=local")
 }
 
-func (n *nativeRunner) bin(pkg string) (string, error) {
+func (n *nativeRunner) bin(pkg string) (string, error) { return n.binMode(pkg, false) }
+
+func (n *nativeRunner) binMode(pkg string, race bool) (string, error) {
 	n.mu.Lock()
 	defer n.mu.Unlock()
-	if b, ok := n.bins[pkg]; ok {
+	key := pkg
+	if race {
+		key += "-race"
+	}
+	if b, ok := n.bins[key]; ok {
 		return b, nil
 	}
-	if e, ok := n.errs[pkg]; ok {
+	if e, ok := n.errs[key]; ok {
 		return "", errors.New(e)
 	}
-	out := filepath.Join(n.scratch, pkg+".test")
+	out := filepath.Join(n.scratch, key+".test")
 	dir := filepath.Join(n.repo, harnessPkgs[pkg][0])
-	ctx, cancel := context.WithTimeout(context.Background(), 5*time.Minute)
+	ctx, cancel := context.WithTimeout(context.Background(), 8*time.Minute)
 	defer cancel()
-	cmd := exec.CommandContext(ctx, "go", "test", "-c", "-vet=off", "-overlay", n.overlay, "-o", out, ".")
+	args := []string{"test", "-c", "-vet=off", "-overlay", n.overlay, "-o", out}
+	if race {
+		args = append(args, "-race")
+	}
+	args = append(args, ".")
+	cmd := exec.CommandContext(ctx, "go", args...)
+	pkg = key
 	cmd.Dir = dir
 	cmd.Env = goEnv()
 	b, err := cmd.CombinedOutput()
@@ -135,6 +147,30 @@ func clipS(s string, n int) string {
 		return s[:n] + "…"
 	}
 	return s
+}
+
+// runRace replays a footprint counterexample: the harness serves the same
+// connections concurrently in a binary built with the race detector.
+func (n *nativeRunner) runRace(pkg string, vec *interp.Vector) replayOutcome {
+	bin, err := n.binMode(pkg, true)
+	if err != nil {
+		return replayOutcome{Status: "error", Output: err.Error()}
+	}
+	f, err := os.CreateTemp(n.scratch, "vec-*.json")
+	if err != nil {
+		return replayOutcome{Status: "error", Output: err.Error()}
+	}
+	data, _ := json.Marshal(vec)
+	f.Write(data)
+	f.Close()
+	defer os.Remove(f.Name())
+	os.Setenv("VERIF_RACE", "1")
+	defer os.Unsetenv("VERIF_RACE")
+	ro := runVectorFile(bin, filepath.Join(n.repo, harnessPkgs[pkg][0]), f.Name())
+	if strings.Contains(ro.Output, "DATA RACE") || strings.Contains(ro.Output, "concurrent map") {
+		ro.Status = "race"
+	}
+	return ro
 }
 
 func (n *nativeRunner) run(pkg string, vec *interp.Vector) replayOutcome {
@@ -398,7 +434,14 @@ func cmdCheck(args []string) int {
 			os.WriteFile(path, data, 0o644)
 			confirmed := false
 			detail := ""
-			if native != nil {
+			if native != nil && strings.HasPrefix(c.label, "no-unsynchronised-shared-access") {
+				ro := native.runRace(run.Pkg, c.vec)
+				detail = "race-detector: " + ro.Status
+				confirmed = ro.Status == "race"
+				if !confirmed {
+					detail += " | " + clipS(ro.Output, 300)
+				}
+			} else if native != nil {
 				ro := native.run(run.Pkg, c.vec)
 				detail = ro.Status + " " + strings.Join(ro.Labels, ",")
 				if c.panic {
